@@ -12,6 +12,9 @@ fn fixtures() {
     for (name, case, note) in props::c03::fixtures() {
         write_fixture("C03", name, &case, note);
     }
+    for (name, case, note) in props::c20::fixtures() {
+        write_fixture("C20", name, &case, note);
+    }
     for (name, case, note) in props::c06::fixtures() {
         write_fixture("C06", name, &case, note);
     }
@@ -56,6 +59,7 @@ fn main() {
         "C06" => run_property(&props::c06::C06, &args),
         "C07" => run_property(&props::c07::C07, &args),
         "C08" => run_property(&props::c08::C08, &args),
+        "C20" => run_property(&props::c20::C20, &args),
         x => {
             eprintln!("unknown property {}", x);
             2
